@@ -1,0 +1,17 @@
+//go:build verif
+
+// Contracts for the deductive verifier in /verif (gocv). Comment-only file.
+
+package txnlock
+
+// Read-side classification of the locks a reader met (C05): a lock's transaction id is reported as
+//   - ignorable only if the transaction cannot affect the reader: its min-commit-ts was pushed above the reader, it is
+//     rolled back, or it committed after the reader's timestamp;
+//   - readable-through only if the transaction committed at or before the reader's timestamp;
+// every other lock makes the reader wait (it contributes to the returned TTL). A lock that is still alive is never
+// declared committed or rolled back here: IsCommitted/IsRolledBack are facts of the status the store reported.
+//@ func (*LockResolver) resolveLocks
+//@   prop C05
+//@   opaque-callee getTxnStatusFromLock resolveAsyncCommitLock resolvePessimisticLock resolveLock batchLiteResolveLocks newAsyncResolveBackoffer tryAsyncResolve
+//@   at call(append:canIgnore) assert ignorable: arg1[0] == l.TxnID && (status.action == kvrpcpb.Action_MinCommitTSPushed || (status.ttl == 0 && status.commitTS == 0) || (status.commitTS > 0 && status.commitTS > opts.CallerStartTS))
+//@   at call(append:canAccess) assert readable: arg1[0] == l.TxnID && status.commitTS > 0 && status.commitTS <= opts.CallerStartTS
